@@ -887,7 +887,7 @@ fn main() {
         let defs = build_ctxs(defs_for_strings(false), &mut ctx);
         let xs = [Tok::Cs("b"), Tok::Cs("iftrue"), Tok::Cs("noexpand")];
         let alpha = [Tok::Cs("b"), Tok::Cs("iftrue"), Tok::Cs("noexpand"), LB, RB, DOT, A];
-        let maxlen = ctx.pick(4u32, 6u32);
+        let maxlen = ctx.pick(5u32, 6u32);
         let ncalls = vcore::strings_upto(7, maxlen);
         let n = defs.len() as u64 * ncalls;
         let dref = &defs;
